@@ -367,12 +367,16 @@ fn reset(
     mut commands: Commands,
     mut server_tick: ResMut<ServerTick>,
     mut related_entities: ResMut<RelatedEntities>,
+    mut despawn_buffer: ResMut<DespawnBuffer>,
+    mut removal_buffer: ResMut<RemovalBuffer>,
     clients: Query<Entity, With<ConnectedClient>>,
     mut buffered_events: ResMut<BufferedServerEvents>,
 ) {
     *server_tick = Default::default();
     buffered_events.clear();
     related_entities.clear();
+    despawn_buffer.clear();
+    removal_buffer.clear();
     for entity in &clients {
         commands.entity(entity).despawn();
     }
